@@ -226,6 +226,8 @@ def gen_sweep_plan(rng, tier, idx, opts):
     cfg = gen_config(rng, 4 if tier == "thorough" else 3, [1, 2, 2, 3, 3, 4])
     if cfg["results_name"] is None:
         cfg["results_name"] = "res"
+    # every raw write is a crash point with several torn lengths: keep the number of raw writes per save small
+    cfg["buffer"] = rng.choice([8192, 8192, None, 256])
     return {"world": "runner", "mode": "sweep", "config": cfg, "script": gen_script(rng, cfg),
             "clock_faults": gen_clock_faults(rng), "lookups": False,
             "sweep": {"lines": bool(opts.get("sweep_lines", False)), "prefix_crash": rng.random() < 0.3}}
